@@ -80,6 +80,7 @@ func props() map[string]Prop {
 			Assume: []string{
 				"call stacks come from generated call programs over real functions of the test binary (no synthetic frames can be injected into runtime.CallersFrames)",
 				"the uncompressed rendering is the frame's full symbol name followed by a location of the documented shape",
+				"two stacks are different when their rendered frame lists differ: instantiations of a generic function that the runtime reports under one name (F[...]) at equal offsets count as one stack",
 			},
 		},
 		{
@@ -144,7 +145,7 @@ func props() map[string]Prop {
 				{Name: "fsbucket", Module: "godev", Pkg: "internal/storage", Harness: "godev_storage", Run: "^TestVerifC18$", Timeout: 20 * time.Minute},
 				{Name: "services", Module: "godev", Pkg: "cmd/telemetrygodev", Harness: "godev_server", Run: "^TestVerifC18Services$", Timeout: 20 * time.Minute},
 			},
-			Assume: []string{"object names are ordinary slash-separated components (no '.', '..' or empty components) and no name is a directory-prefix of another", "the GCS backend needs network credentials and is not exercised"},
+			Assume: []string{"stored object names are ordinary slash-separated components (no '.', '..' or empty components) and no stored name is a directory-prefix of another; requests to the services may spell anything", "the GCS backend needs network credentials and is not exercised"},
 		},
 		{
 			ID: "C12", Level: "exploration",
